@@ -7,11 +7,11 @@ SEEDS="${@:-$(ls seeded)}"
 for s in $SEEDS; do
   d=seeded/$s
   git -C /repo apply "$PWD/$d/patch.diff" || { echo "$s: patch does not apply"; continue; }
-  out=$(./bin/gopkicheck -prop ALL -verif /verif 2>&1)
+  out=$(${BIN:-./bin/gopkicheck} -prop ALL -verif ${VDIR:-/verif} 2>&1)
   git -C /repo checkout -- . 
   fired=$(echo "$out" | grep -E '^(VIOLATION|UNDECIDED) [A-Z]' | awk '{print $1" "$2}' | head -8 | tr '\n' ';')
   prop=${s:0:3}
-  own=$(./bin/gopkicheck -rules | grep "^$prop " | cut -d' ' -f2-)
+  own=$(${BIN:-./bin/gopkicheck} -rules | grep "^$prop " | cut -d' ' -f2-)
   hit=no
   for r in $own; do echo "$fired" | grep -q " $r|" && hit=yes; done
   echo "$s own-property-check=$hit :: ${fired:-silent}"
